@@ -186,5 +186,17 @@ Definition run_c19 (orc : oracle) (s : sexp) : sexp :=
       | Some f => SL (map (of_list of_Zs) [script_location f; nextflow_dir f; base_config f; repository_root f; main_nf_file f])
       | None => bad_input
       end
+  (* (8 tfix mode fixed bs n sched_t) -> script_session_t from the empty tree; entry_t = (k order torn);
+     answer (fs' (torn step ...) (invocation ...)) *)
+  | SL [SZ 8; tfix; md; fx; bs; n; sched] =>
+      match as_bool tfix, as_mode md, as_bool fx, as_Z bs, as_nat n,
+            as_listof (fun s => match s with
+                                | SL [k; o; t] => do e <- as_entry (SL [k; o]); do t <- as_bool t; Some (mkte e t)
+                                | _ => None end) sched with
+      | Some tfix, Some md, Some fx, Some bs, Some n, Some sched =>
+          let '(tf, recs) := script_session_t tfix md fx bs n ([], []) sched in
+          SL [of_fs (fst tf); of_list of_step (snd tf); of_list of_irec recs]
+      | _, _, _, _, _, _ => bad_input
+      end
   | _ => bad_input
   end.
